@@ -143,7 +143,7 @@ def run(shard, ctx):
                     ctx.check("names: the track name comes back as written", t2.name == ts["name"], dict(w, track=ti), ts["name"],
                               t2.name, mechanism="track-name")
                     has_note = any(e["notes"] for b in ts["bars"] for e in b["entries"])
-                    if ts["instrument"] and ts["instrument"]["kind"] == "midi" and has_note:
+                    if ts["instrument"] and ts["instrument"].get("nr") is not None and has_note:
                         nr = getattr(t2.instrument, "instrument_nr", None)
                         ctx.check("names: the MIDI instrument number comes back as written", nr == ts["instrument"]["nr"],
                                   dict(w, track=ti), ts["instrument"]["nr"], nr, mechanism="instrument-nr")
